@@ -8,6 +8,7 @@ SANTAG="${VERIF_SAN:-asan}"
 case "$SANTAG" in
   asan)  SAN="-fsanitize=address,undefined -fno-sanitize-recover=undefined"; OPT="-O1 -g1";;
   plain) SAN=""; OPT="-O1 -g1";;
+  cov)   SAN="--coverage -DVERIF_COVERAGE"; OPT="-O0 -g1";;   # reach measurement (tools/reach.sh), not used by any check
   *) echo "unknown VERIF_SAN=$SANTAG" >&2; exit 2;;
 esac
 KEY=$(printf '%s|%s' "$REPO" "$SANTAG" | md5sum | cut -c1-10)
